@@ -35,7 +35,7 @@ TYPES = [
     U("EvalError", ER, [r"pub enum EvalError\b"]),
     U("SingleAmount(type)", SA, [r"pub struct SingleAmount\b"], derive="Clone, Copy"),
     U("PostingAmount(type)", PA, [r"pub\(crate\) enum PostingAmount\b"], derive="Clone, Copy"),
-    U("Amount(type)", AM, [r"pub struct Amount\b"]),
+    U("Amount(type)", AM, [r"pub struct Amount\b"], pub_fields=True),
 ]
 
 SINGLE = [
@@ -116,7 +116,7 @@ POSTING = [
         ensures r is Zero,   // @PostingAmount.zero
 """),
     U("PostingAmount::check_add", PA, [r"impl PostingAmount<'_>", r"pub fn check_add\b"], fn="check_add", wrap=IMPL_PA,
-      rewrites=[RET("-> Result<Self, EvalError>", "-> (r: Result<Self, EvalError>)"), ("R0-self-type", "map(Self::Single)", "map(|x: SingleAmount| -> (y: PostingAmount) ensures y == PostingAmount::Single(x) { PostingAmount::Single(x) })", 1)],
+      rewrites=[RET("-> Result<Self, EvalError>", "-> (r: Result<Self, EvalError>)"), ("R11-ctor-as-fn", "map(Self::Single)", "map(|x: SingleAmount| -> (y: PostingAmount) ensures y == PostingAmount::Single(x) { PostingAmount::Single(x) })", 1)],
       contract="""
         ensures
             self is Zero ==> r == Ok::<Self, EvalError>(rhs),
